@@ -29,6 +29,7 @@ type c15Dep struct {
 }
 
 type c15Svc struct {
+	Name     string            `json:"name,omitempty"` // ServiceConfig.Name; empty = the map key
 	Image    string            `json:"image"`
 	Profiles []string          `json:"profiles"`
 	Deps     map[string]c15Dep `json:"deps"`
@@ -72,6 +73,9 @@ func nn(l []string) []string {
 
 func c15BuildSvc(name string, s c15Svc) types.ServiceConfig {
 	sc := types.ServiceConfig{Name: name, Image: s.Image}
+	if s.Name != "" {
+		sc.Name = s.Name
+	}
 	if len(s.Profiles) > 0 {
 		sc.Profiles = append([]string{}, s.Profiles...)
 	}
@@ -143,7 +147,7 @@ func c15Build(st c15State) *types.Project {
 }
 
 func c15ExtractSvc(sc types.ServiceConfig) c15Svc {
-	s := c15Svc{Image: sc.Image, Profiles: nn(append([]string{}, sc.Profiles...)), Deps: map[string]c15Dep{},
+	s := c15Svc{Name: sc.Name, Image: sc.Image, Profiles: nn(append([]string{}, sc.Profiles...)), Deps: map[string]c15Dep{},
 		Nets: []string{}, Vols: [][2]string{}, Secrets: []string{}, Configs: []string{}}
 	for k, d := range sc.DependsOn {
 		s.Deps[k] = c15Dep{Required: d.Required, Cond: d.Condition}
